@@ -218,3 +218,22 @@ def classA (addr : Nat) (t : List Nat) : Bool :=
   | none => false
 
 end A2Verif.Detok
+
+/-! ## round 4: the Integer BASIC side of the escape codec -/
+namespace A2Verif.Detok
+open A2Verif.Gen.Tokens
+
+/-- `char::to_uppercase` on one ASCII character -/
+def upC (c : Nat) : Nat := if 97 ≤ c ∧ c ≤ 122 then c - 32 else c
+
+/-- `parse_escaped_ascii(s, inverted = true, caps = true)` on ASCII text (lib.rs:517-552; what
+`integer::Tokenizer::stringlike_node_to_bytes` applies to string and comment text): `\xHH` gives the byte `HH`
+as written (escapes are NOT inverted), every other character is capitalised and gets the high bit -/
+def unescI : List Nat → List Nat
+  | [] => []
+  | c :: x :: h1 :: h2 :: rest' =>
+    if c = 92 ∧ x = 120 ∧ isHex h1 ∧ isHex h2 then (16 * hexVal h1 + hexVal h2) :: unescI rest'
+    else (upC c + 128) :: unescI (x :: h1 :: h2 :: rest')
+  | c :: rest => (upC c + 128) :: unescI rest
+
+end A2Verif.Detok
